@@ -63,7 +63,8 @@ print(json.dumps(res, indent=1))
 if valid:
     dst = os.path.join('/verif/seeded', name)
     os.makedirs(dst, exist_ok=True)
-    shutil.copy(os.path.join(src, 'patch.diff'), dst); shutil.copy(os.path.join(src, 'demo.py'), dst)
+    if os.path.abspath(src) != os.path.abspath(dst):
+        shutil.copy(os.path.join(src, 'patch.diff'), dst); shutil.copy(os.path.join(src, 'demo.py'), dst)
     meta = json.load(open(os.path.join(src, 'meta.json')))
     meta.update({'confirmed': {'repo_head': res['head'], 'demo_exit_without_patch': res['demo_without'],
                                'demo_exit_with_patch': res['demo_with'], 'stable_tests_broken': [],
